@@ -72,13 +72,18 @@ def run(tier, replay=None):
         hdr = "From Coq Require Import NArith.\nFrom DSL Require Import Model Generated_contexts Run."
         for key, fname, typ, fn, shards in (
                 ("ref", "cases_ref.txt", "ref_case", "ref_mismatches", None),
-                ("grid", "cases_grid.txt", "grid_case", "grid_mismatches", 8),
+                ("grid", "cases_grid.txt", "grid_case", "grid_mismatches_s", 8),
                 ("ctx", "cases_ctx.txt", "ctx_case", "ctx_mismatches", 1)):
             lines = open(os.path.join(ck.work, fname)).read().splitlines()
+            h, f = hdr, fn
+            if key == "grid":
+                sfx = open(os.path.join(ck.work, "grid_suffixes.txt")).read()
+                h = hdr + "\nFrom Coq Require Import String.\nOpen Scope string_scope.\nDefinition obs_suffixes : list string := %s." % sfx
+                f = "grid_mismatches_s obs_suffixes"
             if key == "ref":
                 # design terms are large: keep every case file (and coqc's memory) small
                 shards = max(1, min(256, len(lines) // 150))
-            mism[key] = ck.coq_eval_cases(lines, hdr, typ, fn, shards=shards, tag=key)
+            mism[key] = ck.coq_eval_cases(lines, h, typ, f, shards=shards, tag=key)
             if mism[key] is None:
                 break
 
